@@ -5,6 +5,12 @@
 EXTENDS Integers, Sequences, SequencesExt, Json, IOUtils, TLC
 Histories == UNION {[1..n -> {"P", "F"}] : n \in 1..5}
 Cases == {[threshold |-> t, history |-> h] : t \in 1..3, h \in Histories}
+\* thresholds beyond the small ones: the count of consecutive failures must reach them (a count that saturates, a history
+\* window shorter than the threshold, an off-by-one at the comparison show only there)
+Fails(n) == [i \in 1..n |-> "F"]
+\* (the first check passes: the agent is healthy and polling before the failures begin)
+BigCases == {[threshold |-> 6, history |-> <<"P">> \o Fails(7)], [threshold |-> 8, history |-> <<"P">> \o Fails(9)],
+             [threshold |-> 6, history |-> <<"P">> \o Fails(5) \o <<"P">> \o Fails(7)], [threshold |-> 5, history |-> <<"P">> \o Fails(4) \o <<"P">> \o Fails(6)]}
 RetryCounts == (0..70) \cup {-1}
 \* list-call patterns for the poll loop (F = the list call fails, S = it succeeds with an empty list) and the ways
 \* a list call can fail: any of them must make the agent wait before it asks again
@@ -14,5 +20,5 @@ FailKinds == {"500-body", "503-empty", "502-empty", "401-empty", "204-empty", "2
 VARIABLE x
 GInit == x = 0
 GNext == x' = x
-ASSUME JsonSerialize(IOEnv.VERIF_OUT, [health |-> SetToSeq(Cases), retry |-> SetToSeq(RetryCounts), patterns |-> SetToSeq(ListPatterns), failkinds |-> SetToSeq(FailKinds)])
+ASSUME JsonSerialize(IOEnv.VERIF_OUT, [health |-> SetToSeq(Cases), healthbig |-> SetToSeq(BigCases), retry |-> SetToSeq(RetryCounts), patterns |-> SetToSeq(ListPatterns), failkinds |-> SetToSeq(FailKinds)])
 =============================================================================
